@@ -758,6 +758,12 @@ func (fe *FuncEnc) storeAddr(st *State, a *Addr, v string) {
 			return
 		}
 		fe.hset(st, h, fmt.Sprintf("(store %s %s (store (select %s %s) %s %s))", cur, base, cur, base, idx, v))
+		// frame fact for the element view: slices over other backing arrays are unchanged
+		es := fe.sorts.SortOf(a.T)
+		fn := "at_" + mangle(string(es))
+		fe.pre.decl(fmt.Sprintf("(declare-fun %s (%s Slice Int) %s)", fn, fe.heapSorts[h], es))
+		nh := fe.hget(st, h)
+		fe.assume(fmt.Sprintf("(forall ((qs Slice) (qi Int)) (! (=> (not (= (s_base qs) %s)) (= (%s %s qs qi) (%s %s qs qi))) :pattern ((%s %s qs qi))))", base, fn, nh, fn, cur, fn, nh))
 	default:
 		fe.storeRef(st, a.ref, a.T, v)
 	}
